@@ -6,7 +6,8 @@
    (Builder(i) is nil iff i is not an index of hs); cursor and top are Go uint (u64 wrap explicit in
    the model); a [child] is a SubSurface of the surface returned by Draw (item index, origin row,
    origin column, height).
-   [wf_items hs]  : heights are >= 0, their total fits a uint16 (< 65536), fewer than 2^64 items.
+   [wf_items gap hs] : heights are >= 0, gap >= 0, the total height with the gaps fits a uint16
+                    (< 65536, as the widget's own totalHeight), fewer than 2^64 items.
    [wf_state st]  : cursor and top are uint values (0 <= . < 2^64) - true of every Go state.
    [wf_op]        : SetCursor arguments are uint values, replacement item lists are wf_items,
                     draw constraints are bounded (not math.MaxUint16: Draw panics by contract). *)
@@ -56,7 +57,7 @@ Print Assumptions C19_wlist_step_total_valid_visible.
    (cursor < n, or cursor = 0 when n = 0); SetCursor stores its argument, item replacement leaves
    the cursor alone (both are the application's responsibility).  [index_step_ok] says exactly this. *)
 Theorem C19_dyn_index_valid : forall gap dc hs st op hs' st' cs,
-  wf_items hs -> wf_state st ->
+  wf_items gap hs -> wf_state st ->
   dstep gap dc hs st op = Ok (hs', st', cs) -> index_step_ok op hs st st' = true.
 Proof. exact dstep_index. Qed.
 Print Assumptions C19_dyn_index_valid.
@@ -66,47 +67,51 @@ Print Assumptions C19_dyn_index_valid.
 (* ------------------------------------------------------------------------------------------ *)
 
 (* Every Draw, from every state: the children are the items with consecutive indices (heights as
-   the oracle gives them), each child starts where the previous one ends plus the gap - except
-   that children inserted above the previous top item (index < top before the draw) are stacked
-   without the gap - so for gap >= 0 nothing overlaps; the gutter column goes to the cursored
-   child only; and the recorded top/offset point at the child that covers row 0. *)
+   the oracle gives them), each child starts exactly where the previous one ends plus the gap
+   (also the children inserted above the old top item on an upward scroll), nothing overlaps;
+   the gutter column goes to the cursored child only; the recorded top/offset point at the child
+   that is - itself or with the gap below it - on row 0; and the first child starts at or above
+   row 0 (no blank rows above the list). *)
 Theorem C19_dyn_children_contiguous : forall gap dc hs W H st cs st',
-  wf_items hs -> wf_state st -> draw gap dc hs W H st = Ok (cs, st') ->
-  heights_ok hs cs = true /\ consecutive cs = true /\ spacing gap (d_top st) cs = true /\
-  (0 <= gap -> no_overlap cs = true) /\
+  wf_items gap hs -> wf_state st -> draw gap dc hs W H st = Ok (cs, st') ->
+  heights_ok hs cs = true /\ consecutive cs = true /\ spacing gap cs = true /\
+  no_overlap cs = true /\
   cols_ok dc (d_cur st) cs = true /\
-  (0 <= gap -> anchor_ok st' cs = true).
+  anchor_ok gap st' cs = true /\
+  hd_row_le0 cs.
 Proof.
   intros gap dc hs W H st cs st' Hw Hs E.
-  destruct (draw_props _ _ _ _ _ _ _ _ Hw Hs E) as ((G1 & G2 & G3) & C & _ & _ & _ & A & _).
-  repeat split; auto. intros Hg. eapply spacing_no_overlap; eauto.
+  destruct (draw_props _ _ _ _ _ _ _ _ Hw Hs E) as ((G1 & G2 & G3) & C & _ & _ & _ & A & R).
+  destruct Hw as (_ & Hg & _). repeat split; auto. eapply spacing_no_overlap; eauto.
 Qed.
 Print Assumptions C19_dyn_children_contiguous.
 
-(* Full statement of the property: each child starts where the previous ends plus the gap
-   (spacing_exact).  It holds when the gap is 0 or the draw inserts nothing above the top item
-   (no pending upward scroll beyond the offset, or top = 0) ... *)
-Theorem C19_dyn_children_exact_gap_partial : forall gap dc hs W H st cs st',
-  wf_items hs -> wf_state st -> draw gap dc hs W H st = Ok (cs, st') ->
-  gap = 0 \/ no_insertion st -> spacing_exact gap cs = true.
-Proof. exact draw_spacing_exact. Qed.
-Print Assumptions C19_dyn_children_exact_gap_partial.
+(* Scroll position kept (what makes an idle redraw start from the same place): every Draw
+   re-anchors top/offset at a child on row 0 ... unless everything it drew ends above row 0 (the
+   pending scroll went past the last item; finding class scroll-past-end, guarded in
+   [dyn_case_ok_guarded]): then top/offset keep their old values and the next redraw jumps back. *)
+Theorem C19_dyn_scroll_kept_partial : forall gap dc hs W H st cs st',
+  wf_items gap hs -> wf_state st -> draw gap dc hs W H st = Ok (cs, st') ->
+  scroll_kept gap cs || past_end gap cs = true.
+Proof. exact draw_scroll_kept_or_past_end. Qed.
+Print Assumptions C19_dyn_scroll_kept_partial.
 
-(* ... and is refuted for gap > 0 by an upward scroll (finding class gap-insert): items of height 2,
-   gap 1, scroll down 4 lines, then up 2: item 0 is inserted at row -1 and ends at row 1, where
-   item 1 starts - no gap between them. *)
-Theorem C19_dyn_children_exact_gap_refuted :
-  exists gap dc hs ops op st cs,
-    wf_items hs /\ Forall wf_op ops /\
-    last_opt (dyn_run gap dc hs d_init ops) = Some (op, (0, st, cs)) /\
-    spacing_exact gap (map child_of_tuple cs) = false.
+(* the unguarded statement is refuted: three items of height 1 in a viewport of 5 rows, one
+   wheel-down: the items are drawn on rows -3..-1, nothing is on row 0, top/offset stay 0/0 *)
+Theorem C19_dyn_scroll_kept_refuted :
+  exists gap dc hs ops,
+    wf_items gap hs /\ Forall (wf_op gap) ops /\
+    dyn_case_ok (gap, dc, hs, dyn_run gap dc hs d_init ops) = false /\
+    dyn_case_ok_guarded (gap, dc, hs, dyn_run gap dc hs d_init ops) = true /\
+    last_opt (dyn_run gap dc hs d_init ops) =
+      Some (DDraw 4 5, (0, (0, 0, 0, 0, false), [(0, -3, 0, 1); (1, -2, 0, 1); (2, -1, 0, 1)])).
 Proof.
-  exists 1, false, [2; 2; 2; 2], [DDraw 4 4; DSetPending 4; DDraw 4 4; DSetPending (-2); DDraw 4 4].
-  eexists _, _, _. split; [|split; [|split; [vm_compute; reflexivity|vm_compute; reflexivity]]].
-  - split; [repeat constructor; lia|split; vm_compute; reflexivity].
-  - repeat constructor; discriminate.
+  exists 0, false, [1; 1; 1], [DDraw 4 5; DWheelDown; DDraw 4 5].
+  split; [split; [repeat constructor; lia|split; [lia|split; vm_compute; reflexivity]]|].
+  split; [repeat constructor; discriminate|].
+  split; [vm_compute; reflexivity|]. split; vm_compute; reflexivity.
 Qed.
-Print Assumptions C19_dyn_children_exact_gap_refuted.
+Print Assumptions C19_dyn_scroll_kept_refuted.
 
 (* ------------------------------------------------------------------------------------------ *)
 (* cursor_visible_after_draw                                                                   *)
@@ -116,27 +121,27 @@ Print Assumptions C19_dyn_children_exact_gap_refuted.
    with no scroll pending, the cursored item is among the children and inside the viewport: fully
    if it fits (0 <= row, row + height <= H), otherwise it intersects it.  Preconditions on the
    state before the draw: the cursor is an item, the scroll offset lies inside the top item
-   ([ioff]: 0 <= offset, and offset < height(top) unless 0 - what every Draw establishes when it
-   finds a child covering row 0), gap >= 0 and a viewport of positive height. *)
+   ([ioff]: 0 <= offset, and offset < height(top) + gap unless 0 - what every Draw establishes
+   when it finds a child on row 0) and a viewport of positive height. *)
 Theorem C19_dyn_cursor_visible_after_draw : forall gap dc hs st op hs1 st1 cs1 W H cs st2,
-  wf_items hs -> wf_state st -> wf_op op ->
+  wf_items gap hs -> wf_state st -> wf_op gap op ->
   dstep gap dc hs st op = Ok (hs1, st1, cs1) -> is_select op st st1 = true ->
-  0 <= gap -> 0 < H -> d_pend st1 = 0 -> ioff hs1 st1 = true -> d_cur st1 < zlen hs1 ->
+  0 < H -> d_pend st1 = 0 -> ioff gap hs1 st1 = true -> d_cur st1 < zlen hs1 ->
   draw gap dc hs1 W H st1 = Ok (cs, st2) ->
   cursor_visible H (d_cur st1) cs = true.
 Proof.
-  intros gap dc hs st op hs1 st1 cs1 W H cs st2 Hw Hs Hop E Hsel Hg HH Hp Hio Hc Ed.
+  intros gap dc hs st op hs1 st1 cs1 W H cs st2 Hw Hs Hop E Hsel HH Hp Hio Hc Ed.
   destruct (dstep_wf _ _ _ _ _ _ _ _ Hw Hs Hop E) as [Hw1 Hs1].
   eapply draw_cursor_visible with (W := W) (gap := gap) (dc := dc) (hs := hs1) (st' := st2); eauto.
   eapply dstep_select; eauto.
 Qed.
 Print Assumptions C19_dyn_cursor_visible_after_draw.
 
-(* The precondition [ioff] is what a Draw leaves behind whenever one of its children covers row 0
+(* The precondition [ioff] is what a Draw leaves behind whenever one of its children is on row 0
    (then top/offset are re-anchored at that child). *)
 Theorem C19_dyn_draw_establishes_ioff : forall gap dc hs W H st cs st',
-  wf_items hs -> wf_state st -> 0 <= gap -> draw gap dc hs W H st = Ok (cs, st') ->
-  (exists c, In c cs /\ covers0 c = true) -> ioff hs st' = true.
+  wf_items gap hs -> wf_state st -> draw gap dc hs W H st = Ok (cs, st') ->
+  (exists c, In c cs /\ covers0 gap c = true) -> ioff gap hs st' = true.
 Proof. exact draw_establishes_ioff. Qed.
 Print Assumptions C19_dyn_draw_establishes_ioff.
 
@@ -146,10 +151,11 @@ Print Assumptions C19_dyn_draw_establishes_ioff.
 (* ------------------------------------------------------------------------------------------ *)
 
 Theorem C19_dyn_trace_ok : forall gap dc hs ops,
-  wf_items hs -> Forall wf_op ops ->
-  dyn_case_ok (gap, dc, hs, dyn_run gap dc hs d_init ops) = true.
+  wf_items gap hs -> Forall (wf_op gap) ops ->
+  dyn_case_ok_guarded (gap, dc, hs, dyn_run gap dc hs d_init ops) = true.
 Proof.
-  intros gap dc hs ops Hw Ho. unfold dyn_case_ok.
+  intros gap dc hs ops Hw Ho. unfold dyn_case_ok_guarded.
+  pose proof Hw as (_ & Hg & _). replace (0 <=? gap) with true by lia. simpl.
   apply dyn_trace_model_ok; auto; [split; simpl; lia|discriminate].
 Qed.
 Print Assumptions C19_dyn_trace_ok.
@@ -213,10 +219,10 @@ Print Assumptions C19_sbar_ok.
 (* ------------------------------------------------------------------------------------------ *)
 
 Example C19_wf_example :
-  wf_items [3; 1; 2; 4; 1; 1; 3; 2] /\ wf_state d_init /\
-  Forall wf_op [DDraw 4 5; DNext; DSetCursor 6; DWheelDown; DSetItems [1; 1]; DDraw 4 5].
+  wf_items 1 [3; 1; 2; 4; 1; 1; 3; 2] /\ wf_state d_init /\
+  Forall (wf_op 1) [DDraw 4 5; DNext; DSetCursor 6; DWheelDown; DSetItems [1; 1]; DDraw 4 5].
 Proof.
-  split; [split; [repeat constructor; lia|split; vm_compute; reflexivity]|].
+  split; [split; [repeat constructor; lia|split; [lia|split; vm_compute; reflexivity]]|].
   split; [split; simpl; lia|].
   repeat constructor; try discriminate; try (simpl; lia).
 Qed.
@@ -226,7 +232,7 @@ Qed.
 Example C19_visible_example :
   let hs := [3; 1; 2; 4; 1; 1; 3; 2] in
   let st1 := set_cursor d_init 6 in
-  is_select (DSetCursor 6) d_init st1 = true /\ d_pend st1 = 0 /\ ioff hs st1 = true /\
+  is_select (DSetCursor 6) d_init st1 = true /\ d_pend st1 = 0 /\ ioff 0 hs st1 = true /\
   d_cur st1 < zlen hs /\
   exists cs st2, draw 0 true hs 4 5 st1 = Ok (cs, st2) /\
                  In (mkC 6 2 0 3) cs /\ cursor_visible 5 6 cs = true.
